@@ -7,7 +7,7 @@ import (
 )
 
 // protect runs f and turns a panic into the observation [2] (used for nested results)
-func protect(f func() Val) (r Val) {
+func codecProtect(f func() Val) (r Val) {
 	defer func() {
 		if recover() != nil {
 			r = VPanic()
@@ -17,7 +17,7 @@ func protect(f func() Val) (r Val) {
 }
 
 // readOnly runs a decoder on a private copy of in and fails loudly when the decoder wrote to it
-func readOnly(in []byte, f func(b []byte) Val) Val {
+func codecReadOnly(in []byte, f func(b []byte) Val) Val {
 	b := append([]byte{}, in...)
 	r := f(b)
 	if !bytes.Equal(b, in) {
@@ -28,7 +28,7 @@ func readOnly(in []byte, f func(b []byte) Val) Val {
 
 func init() {
 	register("pcr.get", func(a []Val) Val {
-		return readOnly(a[0].B, func(b []byte) Val { return VOk(VU(gots.ExtractPCR(b))) })
+		return codecReadOnly(a[0].B, func(b []byte) Val { return VOk(VU(gots.ExtractPCR(b))) })
 	})
 	register("pcr.put", func(a []Val) Val {
 		b := append([]byte{}, a[0].B...)
@@ -38,6 +38,6 @@ func init() {
 	register("pcr.rt", func(a []Val) Val {
 		b := append([]byte{}, a[0].B...)
 		gots.InsertPCR(b, a[1].U())
-		return VOk(VL(VB(b), protect(func() Val { return VOk(VU(gots.ExtractPCR(b))) })))
+		return VOk(VL(VB(b), codecProtect(func() Val { return VOk(VU(gots.ExtractPCR(b))) })))
 	})
 }
